@@ -12,7 +12,9 @@ q = ["iso",  e, i, j]                  GraphMatcherEngine.isomorphic(g_i, g_j)
                                        extras: names / defaults of different lengths, back-end name, comparators explicitly None)
   | ["giso", i, j] | ["giso0", i, j]   graph_morphism.graph_isomorphism(g_i, g_j, use_defaults=True / False)
   | ["fgi", i, j, use_defaults, fast]  graph_morphism.find_graph_isomorphism
-  | ["ctor", {keyword: raw value}]     GraphMatcherEngine(**keywords): the normalised options read back, or the exception class
+  | ["ctor", {keyword: raw value}]     GraphMatcherEngine(**keywords): the normalised options read back, or the exception class; available_backends()
+  | ["obj", "iso"|"maps", e, i|None, j|None]   an engine method handed a non-Graph argument (None): TypeError before anything else
+  | ["fgit", [class1, class2], i, j, use_defaults, fast]   find_graph_isomorphism on two networkx graph classes (different classes: None)
   | ["edit", i, k]                     the caller edits graph object i in place into graph value k
 Observable: one entry per query in history order — the answer AND the intermediate values (iso: [verdict, [host index, pattern index,
 _pre_check's answer, GraphMatcher method that decided]]; maps: [count, mapping set or [] when the set is not determined by the
@@ -147,10 +149,34 @@ def _ctor_call(kw):
     try:
         e = GraphMatcherEngine(**kw)
     except (ValueError, ImportError) as ex:
-        return [99, ERR_CODES[type(ex).__name__]]
+        return [99, ERR_CODES[type(ex).__name__], [list(b.encode()) for b in GraphMatcherEngine.available_backends()]]
     assert e.backend == "nx" and isinstance(e.wl1_filter, bool)
     return [[_key(k, None) for k in e.node_attrs], [_key(k, None) for k in e.edge_attrs], e.wl1_filter,
-            [] if e.max_mappings is None else [e.max_mappings]]
+            [] if e.max_mappings is None else [e.max_mappings], [list(b.encode()) for b in e.available_backends()]]
+
+
+GRAPH_CLASSES = ["Graph", "DiGraph", "MultiGraph", "MultiDiGraph"]
+
+
+def _obj_call(q, gs, engs):
+    """["obj", "iso"|"maps", e, i|None, j|None]: an engine method called with a non-Graph argument (None stands for a string)."""
+    a = gs[q[3]] if q[3] is not None else "not a graph"
+    b = gs[q[4]] if q[4] is not None else "not a graph"
+    try:
+        if q[1] == "maps":
+            return len(engs[q[2]].get_mappings(a, b))
+        return bool(engs[q[2]].isomorphic(a, b))
+    except TypeError:
+        return [99, 1]
+
+
+def _fgit_call(q, gs):
+    """["fgit", [class1, class2], i, j, use_defaults, fast]: find_graph_isomorphism on two networkx graph classes."""
+    import networkx as nx
+    from synkit.Graph.Matcher import graph_morphism as GM
+    g1, g2 = getattr(nx, q[1][0])(gs[q[2]]), getattr(nx, q[1][1])(gs[q[3]])
+    return GM.find_graph_isomorphism(g1, g2, use_defaults=q[4], fast_invariant_check=q[5]) is not None
+
 
 
 def _sub_opts(q):
@@ -352,6 +378,10 @@ def _run_query(q, gs, engs, specs):
     k = q[0]
     if k == "ctor":
         return _ctor_call(q[1])
+    if k == "obj":
+        return _obj_call(q, gs, engs)
+    if k == "fgit":
+        return _fgit_call(q, gs)
     if k == "iso":
         return bool(engs[q[1]].isomorphic(gs[q[2]], gs[q[3]]))
     if k == "pre":
@@ -379,8 +409,8 @@ def _run_query(q, gs, engs, specs):
 def _obs(q, r, gs, specs, trace=None):
     if q[0] == "fgi":
         return [r is not None, len(r) if r is not None else 0]
-    if q[0] == "ctor":
-        return list(r)
+    if q[0] in ("ctor", "obj"):
+        return list(r) if isinstance(r, list) else r
     if q[0] == "iso":
         return [r, trace]
     if q[0] == "sub":
@@ -653,6 +683,15 @@ def coq_case(case):
                 qs.append("(HEdit %s %s)" % (cnat(q[1]), cnat(q[2])))
             elif k == "ctor":
                 qs.append(wrap("(QCtor %s)" % _craw(q[1])))
+            elif k == "obj":
+                qs.append(wrap("(QObj %s %s %s %s)" % (cbool(q[1] == "maps"), cnat(q[2]), copt(None if q[3] is None else cnat(q[3])),
+                                                       copt(None if q[4] is None else cnat(q[4])))))
+            elif k == "fgit":
+                t1, t2 = GRAPH_CLASSES.index(q[1][0]), GRAPH_CLASSES.index(q[1][1])
+                if t1 == t2 and t1 != 0:
+                    return None            # two directed / multi graphs: their matchers are not modelled
+                qs.append(wrap("(QFgiT %s %s %s %s %s %s %s %s %s)" % (cN(t1), cN(t2), cnat(q[2]), cnat(q[3]), cbool(q[4]), cbool(q[5]),
+                                                                       cN(codes("*")), cN(codes(0)), cN(codes(1)))))
             elif k in ("iso", "maps", "pre"):
                 qs.append(wrap("(%s %s %s %s)" % ({"iso": "QIso", "maps": "QMaps", "pre": "QPre"}[k], cnat(q[1]), cnat(q[2]), cnat(q[3]))))
             elif k == "sub":
@@ -1086,6 +1125,13 @@ def _battery(rng, pairs, n_eng, subs=True, nosubs=(), alt=True, nfixed=8, thin=0
                 qs.append(_odd_sub(rng, j, i))
             if alt and rng.random() < 0.15:
                 qs.append(["ctor", dict(rng.choice(CTOR_POOL))])
+            if alt and rng.random() < 0.08:      # an engine method handed something that is not a graph (TypeError before anything else)
+                a, b = rng.choice([(None, j), (i, None), (None, None), (i, j)])
+                qs.append(["obj", rng.choice(["iso", "maps"]), rng.randrange(n_eng), a, b])
+            if alt and rng.random() < 0.08:      # find_graph_isomorphism on two different networkx classes answers None at once
+                c1, c2 = rng.choice([("Graph", "DiGraph"), ("DiGraph", "Graph"), ("Graph", "MultiGraph"), ("MultiDiGraph", "DiGraph"),
+                                     ("MultiGraph", "MultiDiGraph"), ("Graph", "Graph")])
+                qs.append(["fgit", [c1, c2], i, j, rng.random() < 0.7, rng.random() < 0.5])
             qs.append(["giso", i, j])
             if alt and rng.random() < 0.5:
                 qs.append(["giso0", i, j])
